@@ -38,6 +38,11 @@ theorem tw_all_append {p : UInt8 → Bool} {ds rest : Bytes} (h : ∀ x ∈ ds, 
 
 def toB (c : Char) : UInt8 := UInt8.ofNat c.toNat
 
+/-- a statement about all bytes checked on the 256 values -/
+theorem forall_byte (P : UInt8 → Prop) (h : ∀ n : Fin 256, P (UInt8.ofNat n.val)) (b : UInt8) : P b := by
+  have := h ⟨b.toNat, UInt8.toNat_lt b⟩
+  simpa using this
+
 /-! ### digits -/
 
 theorem specDigits_pad {b : Nat} (hb : 2 ≤ b) (n : Nat) :
@@ -127,7 +132,870 @@ theorem digs_ok {b : Nat} (hb : 2 ≤ b) (hb16 : b ≤ 16) (n : Nat) : DigsOK b 
       simp at this; omega
     subst hk
     simp [pad, IntFmt.digitChar_zero, toB]
-    decide
+
+/-! ### blocks -/
+
+theorem blockDigits_run (buf : Bytes) : ∀ (l : Bytes) (pos acc : Nat) (rest : Bytes), buf.drop pos = l ++ rest →
+    (∀ x ∈ l, isDigit x = true) →
+    blockDigits buf l.length pos acc = (pos + l.length, 0, l.foldl (fun a x => a * 10 + (x.toNat - 48)) acc) := by
+  intro l
+  induction l with
+  | nil => intro pos acc rest _ _; simp [blockDigits]
+  | cons x l ih =>
+    intro pos acc rest hm hd
+    have h0 : buf[pos]? = some x := by rw [getElem?_eq_head_drop, hm]; rfl
+    have h1 : buf.drop (pos + 1) = l ++ rest := by rw [drop_add, hm]; rfl
+    simp only [List.length_cons, blockDigits, h0, hd x (by simp), if_true, List.foldl_cons]
+    rw [ih (pos + 1) _ rest h1 (fun y hy => hd y (by simp [hy]))]
+    congr 1; omega
+
+theorem count_byte : ∀ n, n < 10 → 1 ≤ n →
+    isDigit (UInt8.ofNat (48 + n)) = true ∧ UInt8.ofNat (48 + n) ≠ 48 ∧ (UInt8.ofNat (48 + n)).toNat - 48 = n := by
+  decide +kernel
+
+theorem decimal_ok (n : Nat) : DigsOK 10 n (Message.decimal n) := digs_ok (by omega) (by omega) n
+
+theorem decimal_length_le (n : Nat) (hn : n < 10^9) : (Message.decimal n).length ≤ 9 := by
+  obtain ⟨k, e, hlt, hge⟩ := specDigits_pad (b := 10) (by omega) n
+  unfold Message.decimal; rw [e]; simp
+  apply Decidable.byContradiction
+  intro hk
+  have h9 : 9 ≤ k := by omega
+  have hn0 : n ≠ 0 := by
+    intro h0; subst h0
+    have := IntFmt.specDigits_zero 10
+    rw [e] at this
+    have := congrArg List.length this
+    simp at this; omega
+  have h1 : 10^9 ≤ 10^k := Nat.pow_le_pow_right (by omega) h9
+  have := hge hn0
+  omega
+
+theorem block_roundtrip (d : Bytes) (hd : d.length < 10^9) (tail : Bytes) :
+    let text := encodeBlock d
+    let (p, tok, _) := Lexer.lexBlock (text ++ tail) 0
+    p = text.length ∧ tok.type = .block ∧ ((text ++ tail).drop tok.ptr).take tok.len.toNat = d := by
+  have ok := decimal_ok d.length
+  have hle := decimal_length_le d.length hd
+  generalize hl : Message.decimal d.length = l at ok hle
+  have hpos : 1 ≤ l.length := by
+    cases l with
+    | nil => exact absurd rfl ok.ne
+    | cons _ _ => simp
+  obtain ⟨c1, c2, c3⟩ := count_byte l.length (by omega) hpos
+  have hdig : ∀ x ∈ l, isDigit x = true := by
+    intro x hx
+    obtain ⟨dd, hdd, rfl⟩ := ok.mem x hx
+    exact ((byte_facts dd (by omega)).2.2.2.2.1 hdd).1
+  have hval : l.foldl (fun a x => a * 10 + (x.toNat - 48)) 0 = d.length := by
+    have := ok.val (fun x => x.toNat - 48) (fun dd hdd => ((byte_facts dd (by omega)).2.2.2.2.1 hdd).2) 0
+    simpa using this
+  have hbuf : encodeBlock d ++ tail = 35 :: UInt8.ofNat (48 + l.length) :: (l ++ (d ++ tail)) := by
+    simp [encodeBlock, hl]
+  have hlen : (encodeBlock d).length = 2 + l.length + d.length := by
+    simp [encodeBlock, hl]; omega
+  have key : lexBlock (35 :: UInt8.ofNat (48 + l.length) :: (l ++ (d ++ tail))) 0 =
+      (2 + l.length + d.length, mkTok .block (2 + l.length) d.length, (d.length : Int) + (((2 + l.length : Nat) : Int) - (0 : Nat))) := by
+    have hrun := blockDigits_run (35 :: UInt8.ofNat (48 + l.length) :: (l ++ (d ++ tail))) l 2 0 (d ++ tail) rfl hdig
+    have hc : (isDigit (UInt8.ofNat (48 + l.length)) && UInt8.ofNat (48 + l.length) != 48) = true := by
+      rw [c1, Bool.true_and]; exact bne_iff_ne.2 c2
+    unfold lexBlock
+    simp only [peekP, List.getElem?_cons_zero, beq_self_eq_true, if_true, Nat.zero_add, List.getElem?_cons_succ,
+      hc, c3, Nat.reduceAdd, hrun, hval]
+    rw [if_pos (by simp; omega)]
+  dsimp only
+  rw [hbuf, key, hlen]
+  refine ⟨rfl, rfl, ?_⟩
+  simp only [mkTok, Int.toNat_natCast]
+  rw [show 2 + l.length = l.length + 1 + 1 by omega]
+  simp
+
+/-! ### strings -/
+
+def esc (s : Bytes) : Bytes := s.flatMap (fun b => if b == 34 then [34, 34] else [b])
+
+theorem quote_eq (s : Bytes) : quote s = 34 :: (esc s ++ [34]) := by simp [quote, esc]
+
+theorem esc_cons (x : UInt8) (s : Bytes) : esc (x :: s) = (if x == 34 then [34, 34] else [x]) ++ esc s := by
+  simp [esc]
+
+theorem esc_length_ge (s : Bytes) : s.length ≤ (esc s).length := by
+  induction s with
+  | nil => simp [esc]
+  | cons x s ih => rw [esc_cons]; split <;> simp <;> omega
+
+theorem skipQuote_run (buf : Bytes) : ∀ (s : Bytes) (fuel pos : Nat) (rest : Bytes),
+    buf.drop pos = esc s ++ 34 :: rest → hd rest (· == 34) = false → (∀ b ∈ s, 1 ≤ b ∧ b ≤ 127) → s.length < fuel →
+    skipQuote buf 34 fuel pos = pos + (esc s).length := by
+  intro s
+  induction s with
+  | nil =>
+    intro fuel pos rest hm hr _ hf
+    obtain ⟨f, rfl⟩ : ∃ f, fuel = f + 1 := ⟨fuel - 1, by simp at hf; omega⟩
+    have h0 : buf[pos]? = some 34 := by rw [getElem?_eq_head_drop, hm]; rfl
+    have h1 : peekP buf (pos + 1) (· == 34) = false := by
+      rw [peekP_eq, drop_add, hm]; simpa [esc] using hr
+    simp [skipQuote, h0, h1, esc, isAscii7]
+  | cons x s ih =>
+    intro fuel pos rest hm hr hs hf
+    obtain ⟨f, rfl⟩ : ∃ f, fuel = f + 1 := ⟨fuel - 1, by simp at hf; omega⟩
+    have hs' : ∀ b ∈ s, 1 ≤ b ∧ b ≤ 127 := fun b hb => hs b (by simp [hb])
+    have hf' : s.length < f := by simp at hf; omega
+    rw [esc_cons] at hm ⊢
+    by_cases hx : x = 34
+    · subst hx
+      simp only [beq_self_eq_true, if_true] at hm ⊢
+      have h0 : buf[pos]? = some 34 := by rw [getElem?_eq_head_drop, hm]; rfl
+      have h1 : peekP buf (pos + 1) (· == 34) = true := by
+        rw [peekP_eq, drop_add, hm]; rfl
+      have h2 : buf.drop (pos + 2) = esc s ++ 34 :: rest := by rw [drop_add, hm]; rfl
+      simp only [skipQuote, h0, h1]
+      rw [ih f (pos + 2) rest h2 hr hs' hf']
+      simp [isAscii7]; omega
+    · have hx' : (x == 34) = false := by simpa using hx
+      simp only [hx'] at hm ⊢
+      have h0 : buf[pos]? = some x := by rw [getElem?_eq_head_drop, hm]; rfl
+      have h2 : buf.drop (pos + 1) = esc s ++ 34 :: rest := by rw [drop_add, hm]; rfl
+      have ha : (isAscii7 x && x != 34) = true := by
+        have := (hs x (by simp)).2
+        simp [isAscii7, this, hx]
+      simp only [skipQuote, h0, ha]
+      rw [ih f (pos + 1) rest h2 hr hs' hf']
+      simp; omega
+
+theorem copy_run (tok : Bytes) (cap : Nat) : ∀ (s : Bytes) (fuel iFrom : Nat) (acc : Bytes),
+    tok.drop iFrom = esc s ++ [34] → iFrom + (esc s).length < cap → s.length < fuel →
+    Ctx.copyText.go tok 34 cap fuel iFrom acc = acc ++ s := by
+  intro s
+  induction s with
+  | nil =>
+    intro fuel iFrom acc hm _ hf
+    obtain ⟨f, rfl⟩ : ∃ f, fuel = f + 1 := ⟨fuel - 1, by simp at hf; omega⟩
+    have hl := congrArg List.length hm
+    simp [esc] at hl
+    unfold Ctx.copyText.go
+    rw [if_neg (by omega)]; simp
+  | cons x s ih =>
+    intro fuel iFrom acc hm hc hf
+    obtain ⟨f, rfl⟩ : ∃ f, fuel = f + 1 := ⟨fuel - 1, by simp at hf; omega⟩
+    have hf' : s.length < f := by simp at hf; omega
+    have hl := congrArg List.length hm
+    rw [esc_cons] at hm hl hc
+    have hget : ∀ y r, tok.drop iFrom = y :: r → tok.getD iFrom 0 = y := by
+      intro y r h
+      rw [List.getD_eq_getElem?_getD, getElem?_eq_head_drop, h]; rfl
+    by_cases hx : x = 34
+    · subst hx
+      simp only [beq_self_eq_true, if_true] at hm hl hc
+      simp only [List.length_drop, List.length_append, List.length_cons, List.length_nil] at hl hc
+      have h2 : tok.drop (iFrom + 2) = esc s ++ [34] := by rw [drop_add, hm]; rfl
+      unfold Ctx.copyText.go
+      rw [if_pos (by omega), if_neg (by omega)]
+      simp only [hget _ _ hm, beq_self_eq_true, if_true]
+      rw [ih f (iFrom + 2) _ h2 (by omega) hf']
+      simp
+    · have hx' : (x == 34) = false := by simpa using hx
+      simp only [hx', Bool.false_eq_true, if_false] at hm hl hc
+      simp only [List.length_drop, List.length_append, List.length_cons, List.length_nil] at hl hc
+      have h2 : tok.drop (iFrom + 1) = esc s ++ [34] := by rw [drop_add, hm]; rfl
+      unfold Ctx.copyText.go
+      rw [if_pos (by omega), if_neg (by omega)]
+      simp only [hget _ _ hm, hx', Bool.false_eq_true, if_false]
+      rw [ih f (iFrom + 1) _ h2 (by omega) hf']
+      simp
+
+theorem text_roundtrip (s : Bytes) (hs : ∀ b ∈ s, 1 ≤ b ∧ b ≤ 127) (cap : Nat) (hcap : (quote s).length < cap) (tail : Bytes)
+    (htail : tail = [] ∨ tail.head? = some 44 ∨ tail.head? = some 59 ∨ tail.head? = some 10 ∨ tail.head? = some 13) :
+    let text := quote s
+    let (p, tok, _) := Lexer.lexString (text ++ tail) 0
+    p = text.length ∧ tok = ⟨.doubleQuote, 0, text.length⟩ ∧ Ctx.copyText text 34 cap = (s, true) := by
+  have hT : Term tail := htail
+  have hr : hd tail (· == 34) = false := hd_term hT _ (by decide)
+  have hge := esc_length_ge s
+  have hlen : (quote s).length = (esc s).length + 2 := by rw [quote_eq]; simp
+  have hbuf : quote s ++ tail = 34 :: (esc s ++ 34 :: tail) := by rw [quote_eq]; simp
+  have key : lexString (34 :: (esc s ++ 34 :: tail)) 0 =
+      ((esc s).length + 2, mkTok .doubleQuote 0 ((((esc s).length + 2 : Nat) : Int) - (0 : Nat)),
+        (((esc s).length + 2 : Nat) : Int) - (0 : Nat)) := by
+    have hsk := skipQuote_run (34 :: (esc s ++ 34 :: tail)) s ((34 :: (esc s ++ 34 :: tail)).length - 0) (0 + 1) tail
+      rfl hr hs (by simp; omega)
+    have hp : peekP (34 :: (esc s ++ 34 :: tail)) (0 + 1 + (esc s).length) (· == 34) = true := by
+      rw [peekP_eq, show 0 + 1 + (esc s).length = (esc s).length + 1 by omega]
+      simp
+    unfold lexString
+    simp only [hsk, hp, if_true]
+    have h0 : peekP (34 :: (esc s ++ 34 :: tail)) 0 (· == 34) = true := rfl
+    rw [if_pos h0]
+    simp only [show 0 + 1 + (esc s).length + 1 = (esc s).length + 2 by omega]
+  have hcopy : Ctx.copyText (quote s) 34 cap = (s, true) := by
+    have := copy_run (quote s) cap s ((quote s).length + 1) 1 []
+      (by rw [quote_eq]; rfl) (by omega) (by omega)
+    unfold Ctx.copyText
+    simp only [this, List.nil_append]
+    have : s.length < cap := by omega
+    simp [this]
+  dsimp only
+  rw [hbuf, key, hlen]
+  refine ⟨rfl, ?_, hcopy⟩
+  simp [mkTok]
+
+/-! ### strtod on a decimal literal -/
+section Strtod
+open ScpiVerif.Prim
+
+/-- first byte of a list, NUL when empty -/
+def h0 (s : Bytes) : UInt8 := (s.head?).getD 0
+
+theorem rd_eq (mem : Bytes) (i : Nat) : rd mem i = h0 (mem.drop i) := by
+  simp [rd, h0, List.getD_eq_getElem?_getD, List.head?_drop]
+
+theorem hd_eq_h0 {p : UInt8 → Bool} (hp : p 0 = false) (s : Bytes) : hd s p = p (h0 s) := by
+  cases s <;> simp [h0, hp]
+
+theorem run_eq (mem : Bytes) (p : UInt8 → Bool) (hp : p 0 = false) : ∀ (f i : Nat), (mem.drop i).length < f →
+    strtodLen.run mem p f i = i + tw p (mem.drop i) := by
+  intro f
+  induction f with
+  | zero => intro i h; omega
+  | succ f ih =>
+    intro i h
+    rw [strtodLen.run, rd_eq, ← hd_eq_h0 hp]
+    by_cases hh : hd (mem.drop i) p = true
+    · have hl := hd_length hh
+      rw [if_pos hh, ih (i + 1) (by rw [drop_add]; simp at hl h ⊢; omega), tw_succ hh, drop_add]; omega
+    · rw [if_neg hh]
+      have : tw p (mem.drop i) = 0 := tw_eq_zero_iff.2 (by simpa using hh)
+      omega
+
+theorem strtodLen_decimal (mem : Bytes) (i1 : Nat) (hsp : isSpace (rd mem 0) = false)
+    (hi1 : i1 = if rd mem 0 == 45 ∨ rd mem 0 == 43 then 0 + 1 else 0)
+    (hdig : isDigit (rd mem i1) = true) (hx : rd mem (i1 + 1) ≠ 120 ∧ rd mem (i1 + 1) ≠ 88) :
+    strtodLen mem 0 =
+      let a := i1 + tw isDigit (mem.drop i1)
+      let b := if rd mem a == 46 then a + 1 + tw isDigit (mem.drop (a + 1)) else a
+      if rd mem b == 101 ∨ rd mem b == 69 then
+        let s := if rd mem (b + 1) == 45 ∨ rd mem (b + 1) == 43 then b + 2 else b + 1
+        if isDigit (rd mem s) then s + tw isDigit (mem.drop s) else b
+      else b := by
+  have hskip : skipSpaces mem (mem.length - 0 + 1) 0 = 0 := by simp [skipSpaces, hsp]
+  have hlow : (if 65 ≤ rd mem i1 ∧ rd mem i1 ≤ 90 then rd mem i1 + 32 else rd mem i1) = rd mem i1 := by
+    rw [if_neg]
+    intro h
+    simp only [isDigit, Bool.and_eq_true, decide_eq_true_eq] at hdig
+    have := UInt8.le_trans h.1 hdig.2
+    exact absurd this (by decide)
+  have hne : rd mem i1 ≠ 105 ∧ rd mem i1 ≠ 110 := by
+    constructor <;> intro h <;> rw [h] at hdig <;> exact absurd hdig (by decide)
+  have hd0 : hd (mem.drop i1) isDigit = true := by rw [hd_eq_h0 rfl, ← rd_eq]; exact hdig
+  have hpos : 0 < tw isDigit (mem.drop i1) := tw_pos_iff.2 hd0
+  have hle : i1 ≤ 1 := by rw [hi1]; split <;> omega
+  have hrun : ∀ i, strtodLen.run mem isDigit (mem.length - i1 + 2) i = i + tw isDigit (mem.drop i) := by
+    intro i
+    apply run_eq mem isDigit rfl
+    simp; omega
+  unfold strtodLen
+  simp only [hskip, ← hi1]
+  simp only [List.zipIdx_cons, List.zipIdx_nil, List.all_cons, Nat.add_zero, hlow]
+  rw [if_neg (by simp [hne.1]), if_neg (by simp [hne.2]), if_neg (by simp [hx.1, hx.2])]
+  simp only [hrun, Nat.sub_zero]
+  generalize tw isDigit (mem.drop i1) = n at hpos ⊢
+  rw [if_neg (by simp; omega)]
+
+end Strtod
+
+/-! ### the shape  -?d+(.d+)?(e[+-]d+)?  -/
+section Shape
+open ScpiVerif.Prim
+
+theorem drop2 (a b c : Bytes) : (a ++ (b ++ c)).drop (a.length + b.length) = c := by
+  rw [← List.append_assoc]; exact List.drop_left' (by simp)
+
+theorem drop2c (a b c : Bytes) (x : UInt8) : (a ++ (b ++ x :: c)).drop (a.length + b.length + 1) = c := by
+  have : a ++ (b ++ x :: c) = (a ++ b ++ [x]) ++ c := by simp
+  rw [this]; exact List.drop_left' (by simp; omega)
+
+theorem h0_term {tail : Bytes} (h : Term tail) : h0 tail = 0 ∨ h0 tail = 44 ∨ h0 tail = 59 ∨ h0 tail = 10 ∨ h0 tail = 13 := by
+  rcases h with rfl | h | h | h | h
+  · left; rfl
+  all_goals simp [h0, h]
+
+/-- every byte at an index up to the end of the text is a byte of the text or the terminating byte -/
+theorem rd_cases (text tail : Bytes) (i : Nat) (hi : i ≤ text.length) :
+    rd (text ++ tail) i ∈ text ∨ rd (text ++ tail) i = h0 tail := by
+  by_cases h : i < text.length
+  · left
+    have : rd (text ++ tail) i = text[i] := by
+      simp [rd, List.getD_eq_getElem?_getD, List.getElem?_append_left h, List.getElem?_eq_getElem h]
+    rw [this]; exact List.getElem_mem h
+  · right
+    have : i = text.length := by omega
+    subst this
+    rw [rd_eq, List.drop_left]
+
+def okb (b : UInt8) : Bool := isDigit b || b == 45 || b == 43 || b == 46 || b == 101
+
+theorem okb_facts : ∀ b : UInt8, okb b = true → b ≠ 120 ∧ b ≠ 88 := by
+  apply forall_byte
+  decide +kernel
+theorem digit_facts : ∀ b : UInt8, isDigit b = true →
+    isSpace b = false ∧ b ≠ 45 ∧ b ≠ 43 ∧ b ≠ 46 ∧ b ≠ 101 ∧ b ≠ 69 ∧ okb b = true ∧ b ≠ 35 ∧ isAlpha b = false ∧ isWs b = false := by
+  apply forall_byte
+  decide +kernel
+
+theorem shape_core (sg ip fpp exx tail fp ex : Bytes) (es : UInt8)
+    (hsg : sg = [] ∨ sg = [45]) (hip : ip ≠ []) (hipd : ∀ b ∈ ip, isDigit b = true)
+    (hfpd : ∀ b ∈ fp, isDigit b = true) (hexd : ∀ b ∈ ex, isDigit b = true)
+    (hfpp : fpp = if fp = [] then [] else 46 :: fp)
+    (hexx : exx = if ex = [] then [] else 101 :: es :: ex) (hes : es = 45 ∨ es = 43)
+    (hT : Term tail) :
+    decimalTotal (sg ++ (ip ++ (fpp ++ (exx ++ tail)))) = sg.length + ip.length + fpp.length + exx.length ∧
+    strtodLen (sg ++ (ip ++ (fpp ++ (exx ++ tail)))) 0 = sg.length + ip.length + fpp.length + exx.length := by
+  obtain ⟨c, ip', hipe⟩ : ∃ c ip', ip = c :: ip' := by
+    cases ip with
+    | nil => exact absurd rfl hip
+    | cons c t => exact ⟨c, t, rfl⟩
+  have hc : isDigit c = true := hipd c (by simp [hipe])
+  have hipl : 1 ≤ ip.length := by rw [hipe]; simp
+  -- the rests
+  have hR2 : hd (exx ++ tail) isDigit = false ∧ hd (exx ++ tail) (· == 46) = false ∧ hd (exx ++ tail) isWs = false := by
+    rw [hexx]; split
+    · exact ⟨hd_term hT _ (by decide), hd_term hT _ (by decide), hd_term hT _ (by decide)⟩
+    · exact ⟨rfl, rfl, rfl⟩
+  have hR1 : hd (fpp ++ (exx ++ tail)) isDigit = false := by
+    rw [hfpp]; split
+    · exact hR2.1
+    · rfl
+  have hsgl : (if hd (sg ++ (ip ++ (fpp ++ (exx ++ tail)))) isPlusMn = true then 1 else 0) = sg.length := by
+    rcases hsg with rfl | rfl
+    · have : isPlusMn c = false := by
+        cases hh : isPlusMn c
+        · rfl
+        · rw [decimal_sign_not_digit c hh] at hc; cases hc
+      simp [hipe, this]
+    · rfl
+  have hd1 : tw isDigit (ip ++ (fpp ++ (exx ++ tail))) = ip.length := tw_all_append hipd hR1
+  have hd2 : tw isDigit (fp ++ (exx ++ tail)) = fp.length := tw_all_append hfpd hR2.1
+  have hd3 : tw isDigit (ex ++ tail) = ex.length := tw_all_append hexd (hd_term hT _ (by decide))
+  have hdropM : (sg ++ (ip ++ (fpp ++ (exx ++ tail)))).drop (sg.length + ip.length + fpp.length) = exx ++ tail := by
+    have : sg ++ (ip ++ (fpp ++ (exx ++ tail))) = (sg ++ ip ++ fpp) ++ (exx ++ tail) := by simp
+    rw [this]; exact List.drop_left' (by simp; omega)
+  constructor
+  · have hMant : decimalMant (sg ++ (ip ++ (fpp ++ (exx ++ tail)))) =
+        (sg.length + ip.length + fpp.length, ip.length + fp.length) := by
+      unfold decimalMant
+      simp only [hsgl, List.drop_left, hd1, drop2]
+      by_cases hfp : fp = []
+      · subst hfp
+        simp only [if_true] at hfpp
+        subst hfpp
+        simp [hR2.2.1]
+      · simp only [if_neg hfp] at hfpp
+        subst hfpp
+        have h46 : hd (46 :: fp ++ (exx ++ tail)) (· == 46) = true := rfl
+        rw [if_pos h46]
+        have := drop2c sg ip (fp ++ (exx ++ tail)) 46
+        simp only [List.cons_append, this, hd2, List.length_cons]
+        refine Prod.ext ?_ ?_ <;> simp only <;> omega
+    have hExp : decimalExp (exx ++ tail) = (exx.length, ex.length) := by
+      unfold decimalExp
+      by_cases hex : ex = []
+      · subst hex
+        simp only [if_true] at hexx
+        subst hexx
+        simp [hd_term hT isE (by decide)]
+      · simp only [if_neg hex] at hexx
+        subst hexx
+        have hE : hd (101 :: es :: (ex ++ tail)) isE = true := rfl
+        have hw : tw isWs (es :: (ex ++ tail)) = 0 := by
+          apply tw_eq_zero_iff.2
+          rcases hes with rfl | rfl <;> rfl
+        have hs : hd (es :: (ex ++ tail)) isPlusMn = true := by rcases hes with rfl | rfl <;> rfl
+        simp only [List.cons_append, hE, if_true, List.drop_succ_cons, List.drop_zero, hw, hs, hd3, List.length_cons]
+        refine Prod.ext ?_ ?_ <;> simp only <;> omega
+    have hws : tw isWs (exx ++ tail) = 0 := tw_eq_zero_iff.2 hR2.2.2
+    unfold decimalTotal
+    simp only [hMant, hdropM, hws, List.drop_zero, hExp]
+    rw [if_pos (by omega)]
+    split <;> rename_i h
+    · omega
+    · have : ex = [] := by simpa using h
+      subst this
+      simp only [if_true] at hexx
+      subst hexx; simp
+  · have hmem0 : h0 (sg ++ (ip ++ (fpp ++ (exx ++ tail)))) = if sg = [] then c else 45 := by
+      rcases hsg with rfl | rfl <;> simp [h0, hipe]
+    have hcf := digit_facts c hc
+    have hsp : isSpace (rd (sg ++ (ip ++ (fpp ++ (exx ++ tail)))) 0) = false := by
+      rw [rd_eq, List.drop_zero, hmem0]; split
+      · exact hcf.1
+      · rfl
+    have hi1 : sg.length = if rd (sg ++ (ip ++ (fpp ++ (exx ++ tail)))) 0 == 45 ∨ rd (sg ++ (ip ++ (fpp ++ (exx ++ tail)))) 0 == 43
+        then 0 + 1 else 0 := by
+      rw [rd_eq, List.drop_zero, hmem0]
+      rcases hsg with rfl | rfl
+      · simp [hcf.2.1, hcf.2.2.1]
+      · simp
+    have hdig : isDigit (rd (sg ++ (ip ++ (fpp ++ (exx ++ tail)))) sg.length) = true := by
+      rw [rd_eq, List.drop_left, hipe]; exact hc
+    have hx : rd (sg ++ (ip ++ (fpp ++ (exx ++ tail)))) (sg.length + 1) ≠ 120 ∧
+        rd (sg ++ (ip ++ (fpp ++ (exx ++ tail)))) (sg.length + 1) ≠ 88 := by
+      have hm : sg ++ (ip ++ (fpp ++ (exx ++ tail))) = (sg ++ ip ++ fpp ++ exx) ++ tail := by simp
+      have hall : ∀ b ∈ sg ++ ip ++ fpp ++ exx, okb b = true := by
+        intro b hb
+        simp only [List.mem_append] at hb
+        rcases hb with ((hb | hb) | hb) | hb
+        · rcases hsg with rfl | rfl
+          · simp at hb
+          · simp at hb; subst hb; rfl
+        · exact (digit_facts b (hipd b hb)).2.2.2.2.2.2.1
+        · rw [hfpp] at hb; split at hb
+          · simp at hb
+          · simp at hb; rcases hb with rfl | hb
+            · rfl
+            · exact (digit_facts b (hfpd b hb)).2.2.2.2.2.2.1
+        · rw [hexx] at hb; split at hb
+          · simp at hb
+          · simp at hb; rcases hb with rfl | rfl | hb
+            · rfl
+            · rcases hes with rfl | rfl <;> rfl
+            · exact (digit_facts b (hexd b hb)).2.2.2.2.2.2.1
+      rw [hm]
+      rcases rd_cases (sg ++ ip ++ fpp ++ exx) tail (sg.length + 1) (by simp; omega) with h | h
+      · exact okb_facts _ (hall _ h)
+      · rw [h]
+        rcases h0_term hT with e | e | e | e | e <;> rw [e] <;> decide
+    rw [strtodLen_decimal _ sg.length hsp hi1 hdig hx]
+    simp only [rd_eq, List.drop_left, hd1, drop2]
+    have hb : (if (h0 (fpp ++ (exx ++ tail)) == 46) = true then
+        sg.length + ip.length + 1 + tw isDigit ((sg ++ (ip ++ (fpp ++ (exx ++ tail)))).drop (sg.length + ip.length + 1))
+        else sg.length + ip.length) = sg.length + ip.length + fpp.length := by
+      by_cases hfp : fp = []
+      · subst hfp
+        simp only [if_true] at hfpp
+        subst hfpp
+        have := hR2.2.1
+        rw [hd_eq_h0 rfl] at this
+        simp [this]
+      · simp only [if_neg hfp] at hfpp
+        subst hfpp
+        have := drop2c sg ip (fp ++ (exx ++ tail)) 46
+        simp only [List.cons_append, this, hd2, List.length_cons, h0, List.head?_cons, Option.getD_some,
+          beq_self_eq_true, if_true]
+        omega
+    simp only [hb, hdropM]
+    by_cases hex : ex = []
+    · subst hex
+      simp only [if_true] at hexx
+      subst hexx
+      simp only [List.nil_append, List.length_nil, Nat.add_zero]
+      rw [if_neg]
+      rcases h0_term hT with e | e | e | e | e <;> rw [e] <;> decide
+    · simp only [if_neg hex] at hexx
+      subst hexx
+      have hdr1 : (sg ++ (ip ++ (fpp ++ (101 :: es :: ex ++ tail)))).drop (sg.length + ip.length + fpp.length + 1) = es :: (ex ++ tail) := by
+        rw [drop_add, hdropM]; rfl
+      have hdr2 : (sg ++ (ip ++ (fpp ++ (101 :: es :: ex ++ tail)))).drop (sg.length + ip.length + fpp.length + 2) = ex ++ tail := by
+        rw [drop_add, hdropM]; rfl
+      obtain ⟨x, ex', hexe⟩ : ∃ x ex', ex = x :: ex' := by
+        cases ex with
+        | nil => exact absurd rfl hex
+        | cons c t => exact ⟨c, t, rfl⟩
+      have hxd : isDigit x = true := hexd x (by simp [hexe])
+      have hes' : ((es == 45) = true ∨ (es == 43) = true) := by rcases hes with rfl | rfl <;> simp
+      have h101 : h0 (101 :: es :: ex ++ tail) = 101 := rfl
+      have hh2 : isDigit (h0 (ex ++ tail)) = true := by rw [hexe]; exact hxd
+      simp only [hdr1, if_true, h0, List.head?_cons, Option.getD_some, hes']
+      simp only [hdr2]
+      change (if isDigit (h0 (ex ++ tail)) = true then _ else _) = _
+      rw [if_pos hh2, hd3]
+      simp; omega
+
+theorem isDigit_iff (b : UInt8) : (48 ≤ b ∧ b ≤ 57) ↔ isDigit b = true := by simp [isDigit]
+
+theorem float_text_accepted (neg : Bool) (ip fp ex : Bytes) (eneg : Bool)
+    (hip : ip ≠ [] ∧ ∀ b ∈ ip, 48 ≤ b ∧ b ≤ 57) (hfp : ∀ b ∈ fp, 48 ≤ b ∧ b ≤ 57) (hex : ∀ b ∈ ex, 48 ≤ b ∧ b ≤ 57) (tail : Bytes)
+    (htail : tail = [] ∨ tail.head? = some 44 ∨ tail.head? = some 59 ∨ tail.head? = some 10 ∨ tail.head? = some 13) :
+    let text : Bytes := (if neg then [45] else []) ++ ip ++ (if fp = [] then [] else [46] ++ fp) ++
+                        (if ex = [] then [] else [101] ++ (if eneg then [45] else [43]) ++ ex)
+    (Lexer.lexDecimal (text ++ tail) 0).2.2 = text.length ∧ Prim.strtodLen (text ++ tail) 0 = text.length := by
+  have hcore := shape_core (if neg then [45] else []) ip (if fp = [] then [] else 46 :: fp)
+    (if ex = [] then [] else 101 :: (if eneg then 45 else 43) :: ex) tail fp ex (if eneg then 45 else 43)
+    (by cases neg <;> simp) hip.1 (fun b hb => (isDigit_iff b).1 (hip.2 b hb)) (fun b hb => (isDigit_iff b).1 (hfp b hb))
+    (fun b hb => (isDigit_iff b).1 (hex b hb)) rfl rfl (by cases eneg <;> simp) htail
+  have e1 : (if fp = [] then [] else [46] ++ fp) = (if fp = [] then [] else 46 :: fp) := rfl
+  have e2 : (if ex = [] then [] else [101] ++ (if eneg then [45] else [43]) ++ ex) =
+      (if ex = [] then [] else 101 :: (if eneg then 45 else 43) :: ex) := by
+    cases eneg <;> rfl
+  dsimp only
+  rw [e1, e2, decimal_lexDecimal_eq]
+  simp only [List.append_assoc, List.length_append, List.drop_zero] at hcore ⊢
+  rw [hcore.1, hcore.2]
+  simp only [Nat.add_assoc]
+  exact ⟨trivial, trivial⟩
+
+end Shape
+
+/-! ### one program data element -/
+section Parse
+open ScpiVerif.Parser
+
+theorem lexWhiteSpace_none (mem : Bytes) (n : Nat) (h : hd (mem.drop n) isWs = false) :
+    lexWhiteSpace mem n = (n, mkTok .unknown n 0, 0) := by
+  unfold lexWhiteSpace
+  lex_rel [tw_eq_zero_iff.2 h]
+  simp
+
+theorem lexSuffix_none (mem : Bytes) (n : Nat) (h1 : hd (mem.drop n) (· == 47) = false) (h2 : hd (mem.drop n) isAlpha = false) :
+    lexSuffix mem n = (n, mkTok .unknown n 0, 0) := by
+  unfold lexSuffix
+  lex_rel [h1]
+  simp [tw_eq_zero_iff.2 h2]
+
+theorem sd_facts : ∀ b : UInt8, (isPlusMn b || isDigit b) = true →
+    isWs b = false ∧ (b == 35) = false ∧ isAlpha b = false := by
+  apply forall_byte
+  decide +kernel
+
+theorem parse_decimal (mem : Bytes) (n : Nat) (hn : 0 < n)
+    (h1 : hd mem (fun b => isPlusMn b || isDigit b) = true)
+    (hT : decimalTotal mem = n) (hr : Term (mem.drop n)) :
+    parseProgramData mem 0 = (n, Token.mk .decimal 0 n, (n : Int)) := by
+  have hws : hd (mem.drop 0) isWs = false := hd_disj (fun b hb => (sd_facts b hb).1) h1
+  have h35 : hd (mem.drop 0) (· == 35) = false := hd_disj (fun b hb => (sd_facts b hb).2.1) h1
+  have hal : hd (mem.drop 0) isAlpha = false := hd_disj (fun b hb => (sd_facts b hb).2.2) h1
+  have e1 := lexWhiteSpace_none mem 0 hws
+  have e2 : lexNondecimal mem 0 = (0, mkTok .unknown 0 0, 0) := by
+    unfold lexNondecimal; rw [peekP_eq, h35]; rfl
+  have e3 : lexCharacterProgramData mem 0 = (0, mkTok .unknown 0 0, 0) := by
+    unfold lexCharacterProgramData; rw [peekP_eq, hal]; rfl
+  have e4 : lexDecimal mem 0 = (n, ⟨.decimal, 0, n⟩, (n : Int)) := by
+    rw [decimal_lexDecimal_eq, List.drop_zero, hT]; simp [hn]
+  have e5 := lexWhiteSpace_none mem n (hd_term hr _ (by decide))
+  have e6 := lexSuffix_none mem n (hd_term hr _ (by decide)) (hd_term hr _ (by decide))
+  have hn0 : ((n : Int) != 0) = true := by simp; omega
+  unfold parseProgramData
+  simp only [e1, e2, e3, e4, hn0, if_true, bne_self_eq_false, Bool.false_eq_true, if_false, e5, e6]
+  simp [e5]
+
+theorem parse_nondec (L : UInt8) (ds tail : Bytes) (pd : UInt8 → Bool) (ty : TokType)
+    (hL : (L = 72 ∧ pd = isXDigit ∧ ty = .hexnum) ∨ (L = 81 ∧ pd = isQDigit ∧ ty = .octnum) ∨ (L = 66 ∧ pd = isBDigit ∧ ty = .binnum))
+    (hds : ds ≠ []) (hall : ∀ x ∈ ds, pd x = true) (hpt : hd tail pd = false) (hT : Term tail) :
+    parseProgramData (35 :: L :: (ds ++ tail)) 0 = (2 + ds.length, Token.mk ty 2 ds.length, (ds.length : Int) + 2) := by
+  have hlen : 1 ≤ ds.length := by
+    cases ds with
+    | nil => exact absurd rfl hds
+    | cons _ _ => simp
+  have e1 := lexWhiteSpace_none (35 :: L :: (ds ++ tail)) 0 rfl
+  have htw : tw pd (ds ++ tail) = ds.length := tw_all_append hall hpt
+  have e2 : lexNondecimal (35 :: L :: (ds ++ tail)) 0 = (2 + ds.length, mkTok ty 2 ds.length, (ds.length : Int) + 2) := by
+    unfold lexNondecimal
+    rcases hL with ⟨rfl, rfl, rfl⟩ | ⟨rfl, rfl, rfl⟩ | ⟨rfl, rfl, rfl⟩
+    all_goals
+      simp only [peekP, List.getElem?_cons_zero, List.getElem?_cons_succ, Nat.zero_add]
+      simp only [skipMany_eq, Nat.reduceAdd, List.drop_succ_cons, List.drop_zero, htw]
+      simp +decide
+      rw [if_pos (by omega)]
+      refine Prod.ext rfl (Prod.ext ?_ ?_)
+      · simp only [mkTok]; congr 1; omega
+      · simp only; omega
+  have hdrop : (35 :: L :: (ds ++ tail)).drop (2 + ds.length) = tail := by
+    rw [Nat.add_comm, drop_add]; simp
+  have e5 := lexWhiteSpace_none (35 :: L :: (ds ++ tail)) (2 + ds.length) (by rw [hdrop]; exact hd_term hT _ (by decide))
+  have hn0 : (((ds.length : Int) + 2) != 0) = true := by simp; omega
+  unfold parseProgramData
+  simp only [e1, e2, hn0, if_true, e5]
+  simp [mkTok]
+
+end Parse
+
+/-! ### strtol / strtoul on canonical digits -/
+section Strto
+open ScpiVerif.Prim
+
+theorem digitsOfBase_run (mem : Bytes) (base : Nat) : ∀ (ds : Bytes) (f i acc : Nat) (rest : Bytes),
+    mem.drop i = ds ++ rest → (∀ x ∈ ds, ∃ d, digitVal x = some d ∧ d < base) → digitVal (h0 rest) = none → ds.length < f →
+    digitsOfBase mem base f i acc = (i + ds.length, ds.foldl (fun a x => a * base + (digitVal x).getD 0) acc) := by
+  intro ds
+  induction ds with
+  | nil =>
+    intro f i acc rest hm _ hstop hf
+    obtain ⟨f, rfl⟩ : ∃ f', f = f' + 1 := ⟨f - 1, by simp at hf; omega⟩
+    have : rd mem i = h0 rest := by rw [rd_eq, hm]; rfl
+    simp [digitsOfBase, this, hstop]
+  | cons x ds ih =>
+    intro f i acc rest hm hall hstop hf
+    obtain ⟨f, rfl⟩ : ∃ f', f = f' + 1 := ⟨f - 1, by simp at hf; omega⟩
+    have hx : rd mem i = x := by rw [rd_eq, hm]; rfl
+    obtain ⟨d, hd, hlt⟩ := hall x (by simp)
+    have h1 : mem.drop (i + 1) = ds ++ rest := by rw [drop_add, hm]; rfl
+    simp only [digitsOfBase, hx, hd, hlt, if_true]
+    rw [ih f (i + 1) _ rest h1 (fun y hy => hall y (by simp [hy])) hstop (by simp at hf; omega)]
+    simp [hd]; omega
+
+theorem term_facts : ∀ b : UInt8, (b = 0 ∨ b = 44 ∨ b = 59 ∨ b = 10 ∨ b = 13) →
+    digitVal b = none ∧ b ≠ 120 ∧ b ≠ 88 := by
+  apply forall_byte
+  decide +kernel
+
+theorem strtoSyntax_run (mem : Bytes) (off base n : Nat) (sg ds tail : Bytes)
+    (hm : mem.drop off = sg ++ (ds ++ tail)) (hsg : sg = [] ∨ sg = [45]) (hok : DigsOK base n ds)
+    (hb16 : base ≤ 16) (hT : Term tail) :
+    strtoSyntax mem off base = (sg.length + ds.length, decide (sg = [45]), n) := by
+  obtain ⟨c, ds', hdse⟩ : ∃ c ds', ds = c :: ds' := by
+    cases ds with
+    | nil => exact absurd rfl hok.ne
+    | cons c t => exact ⟨c, t, rfl⟩
+  obtain ⟨d0, hd0, hce⟩ := hok.mem c (by simp [hdse])
+  have hcf := byte_facts d0 (by omega)
+  rw [← hce] at hcf
+  have hlen : 1 ≤ ds.length := by rw [hdse]; simp
+  have hmlen : mem.length - off = sg.length + ds.length + tail.length := by
+    have := congrArg List.length hm
+    simp at this; omega
+  have ht := term_facts _ (h0_term hT)
+  -- white space and sign
+  have hr0 : rd mem off = if sg = [] then c else 45 := by
+    rw [rd_eq, hm]
+    rcases hsg with rfl | rfl <;> simp [h0, hdse]
+  have hskip : skipSpaces mem (mem.length - off + 1) off = off := by
+    have : isSpace (rd mem off) = false := by
+      rw [hr0]; split
+      · exact hcf.2.2.2.2.2.2.1
+      · rfl
+    simp [skipSpaces, this]
+  have hsign : (if rd mem off == 45 then (true, off + 1) else if rd mem off == 43 then (false, off + 1) else (false, off))
+      = (decide (sg = [45]), off + sg.length) := by
+    rw [hr0]
+    rcases hsg with rfl | rfl
+    · simp [hcf.2.2.2.2.2.2.2.1, hcf.2.2.2.2.2.2.2.2]
+    · simp
+  have hd1 : mem.drop (off + sg.length) = ds ++ tail := by rw [drop_add, hm, List.drop_left]
+  have hr1 : rd mem (off + sg.length) = c := by rw [rd_eq, hd1, hdse]; rfl
+  have hpre : ¬ (base == 16 ∧ rd mem (off + sg.length) == 48 ∧
+      (rd mem (off + sg.length + 1) == 120 ∨ rd mem (off + sg.length + 1) == 88) ∧
+      isHexDigit (rd mem (off + sg.length + 2))) := by
+    intro ⟨_, h48, hxx, _⟩
+    rw [hr1] at h48
+    have h48' : c = 48 := by simpa using h48
+    have := hok.lead (by rw [hdse, h48']; rfl)
+    have hr2 : rd mem (off + sg.length + 1) = h0 tail := by
+      rw [rd_eq, drop_add, hd1, this]; rfl
+    rw [hr2] at hxx
+    rcases hxx with h | h
+    · exact ht.2.1 (by simpa using h)
+    · exact ht.2.2 (by simpa using h)
+  have hrun := digitsOfBase_run mem base ds (mem.length - (off + sg.length) + 2) (off + sg.length) 0 tail hd1
+    (by
+      intro x hx
+      obtain ⟨d, hd, rfl⟩ := hok.mem x hx
+      exact ⟨d, (byte_facts d (by omega)).1, hd⟩)
+    ht.1 (by omega)
+  have hval : ds.foldl (fun a x => a * base + (digitVal x).getD 0) 0 = n := by
+    have := hok.val (fun x => (digitVal x).getD 0) (fun d hd => by rw [(byte_facts d (by omega)).1]; rfl) 0
+    simpa using this
+  unfold strtoSyntax
+  simp only [hskip, hsign, if_neg hpre, hrun, hval]
+  rw [if_neg (by rw [beq_iff_eq]; omega)]
+  refine Prod.ext ?_ rfl
+  simp only; omega
+
+end Strto
+
+/-! ### integers -/
+section Ints
+open ScpiVerif.Prim ScpiVerif.Parser
+
+theorem strtoulTo_run (w : Nat) (hw : w = 32 ∨ w = 64) (v : Nat) (hv : v < 2^w) (mem : Bytes) (off base : Nat)
+    (ds tail : Bytes) (hm : mem.drop off = ds ++ tail) (hok : DigsOK base v ds) (hb16 : base ≤ 16) (hT : Term tail) :
+    strtoulTo w mem off base = (ds.length, v) := by
+  have hlen : ds.length ≠ 0 := by
+    intro h; exact hok.ne (List.length_eq_zero_iff.1 h)
+  have := strtoSyntax_run mem off base v [] ds tail (by simpa using hm) (.inl rfl) hok hb16 hT
+  unfold strtoulTo
+  simp only [this, List.length_nil, Nat.zero_add]
+  rw [if_neg (by rw [beq_iff_eq]; exact hlen)]
+  have h64 : v < 2^64 := by
+    rcases hw with rfl | rfl
+    · exact Nat.lt_trans hv (by decide)
+    · exact hv
+  have hd : decide (([] : Bytes) = [45]) = false := by decide
+  simp only [hd, Bool.false_eq_true, if_false]
+  rw [if_neg (by omega), Nat.mod_eq_of_lt hv]
+
+theorem strtolTo_run (w : Nat) (mem : Bytes) (sg ds tail : Bytes) (m : Nat)
+    (hm : mem.drop 0 = sg ++ (ds ++ tail)) (hsg : sg = [] ∨ sg = [45]) (hok : DigsOK 10 m ds) (hT : Term tail)
+    (hlim : m ≤ 2^63 - (if sg = [45] then 0 else 1)) :
+    strtolTo w mem 0 10 = (sg.length + ds.length, wrapSigned w (if sg = [45] then -(m : Int) else m)) := by
+  have hlen : ds.length ≠ 0 := by
+    intro h; exact hok.ne (List.length_eq_zero_iff.1 h)
+  have := strtoSyntax_run mem 0 10 m sg ds tail hm hsg hok (by omega) hT
+  unfold strtolTo
+  simp only [this]
+  rw [if_neg (by rw [beq_iff_eq]; omega)]
+  rcases hsg with rfl | rfl
+  · have hd' : ¬ (([] : Bytes) = [45]) := by decide
+    simp only [hd', decide_false, Bool.false_eq_true, if_false] at hlim ⊢
+    rw [if_neg (by omega)]
+  · simp only [decide_true, if_true] at hlim ⊢
+    rw [if_neg (by omega)]
+
+theorem pre_eq : bytesOf "#B" = [35, 66] ∧ bytesOf "#Q" = [35, 81] ∧ bytesOf "#H" = [35, 72] := by decide +kernel
+
+theorem intText_unsigned (w v : Nat) (base : Int) :
+    intText w v base false =
+      (if base = 2 then [35, 66] else if base = 8 then [35, 81] else if base = 16 then [35, 72] else []) ++
+        digs (effBase base) v := by
+  simp only [intText, canon, Bool.false_and, Bool.false_eq_true, if_false, pre_eq.1, pre_eq.2.1, pre_eq.2.2]
+  rfl
+
+theorem term_classes : ∀ b : UInt8, (b = 0 ∨ b = 44 ∨ b = 59 ∨ b = 10 ∨ b = 13) →
+    isXDigit b = false ∧ isQDigit b = false ∧ isBDigit b = false := by
+  apply forall_byte
+  decide +kernel
+
+theorem nondec_roundtrip (w : Nat) (hw : w = 32 ∨ w = 64) (v : Nat) (hv : v < 2^w) (b : Nat) (L : UInt8)
+    (pd : UInt8 → Bool) (ty : TokType)
+    (hL : (L = 72 ∧ pd = isXDigit ∧ ty = .hexnum ∧ b = 16) ∨ (L = 81 ∧ pd = isQDigit ∧ ty = .octnum ∧ b = 8) ∨
+          (L = 66 ∧ pd = isBDigit ∧ ty = .binnum ∧ b = 2))
+    (tail : Bytes) (hT : Term tail) :
+    parseProgramData (35 :: L :: (digs b v ++ tail)) 0 = (2 + (digs b v).length, Token.mk ty 2 (digs b v).length, ((digs b v).length : Int) + 2) ∧
+    strtoulTo w (35 :: L :: (digs b v ++ tail)) 2 b = ((digs b v).length, v) := by
+  have hb : 2 ≤ b ∧ b ≤ 16 := by rcases hL with ⟨_, _, _, rfl⟩ | ⟨_, _, _, rfl⟩ | ⟨_, _, _, rfl⟩ <;> omega
+  have hok := digs_ok hb.1 hb.2 v
+  have hall : ∀ x ∈ digs b v, pd x = true := by
+    intro x hx
+    obtain ⟨d, hd, rfl⟩ := hok.mem x hx
+    have := byte_facts d (by omega)
+    rcases hL with ⟨_, rfl, _, rfl⟩ | ⟨_, rfl, _, rfl⟩ | ⟨_, rfl, _, rfl⟩
+    · exact this.2.1
+    · exact this.2.2.1 hd
+    · exact this.2.2.2.1 hd
+  have hpt : hd tail pd = false := by
+    have hc := term_classes _ (h0_term hT)
+    rcases hL with ⟨_, rfl, _, _⟩ | ⟨_, rfl, _, _⟩ | ⟨_, rfl, _, _⟩
+    · rw [hd_eq_h0 rfl]; exact hc.1
+    · rw [hd_eq_h0 rfl]; exact hc.2.1
+    · rw [hd_eq_h0 rfl]; exact hc.2.2
+  refine ⟨parse_nondec L (digs b v) tail pd ty ?_ hok.ne hall hpt hT, ?_⟩
+  · rcases hL with ⟨a, b, c, _⟩ | ⟨a, b, c, _⟩ | ⟨a, b, c, _⟩
+    · exact .inl ⟨a, b, c⟩
+    · exact .inr (.inl ⟨a, b, c⟩)
+    · exact .inr (.inr ⟨a, b, c⟩)
+  · exact strtoulTo_run w hw v hv _ 2 b (digs b v) tail rfl hok hb.2 hT
+
+theorem dec_parse (sg : Bytes) (hsg : sg = [] ∨ sg = [45]) (m : Nat) (tail : Bytes) (hT : Term tail) :
+    parseProgramData (sg ++ (digs 10 m ++ tail)) 0 =
+      (sg.length + (digs 10 m).length, Token.mk .decimal 0 ((sg.length + (digs 10 m).length : Nat) : Int),
+        ((sg.length + (digs 10 m).length : Nat) : Int)) := by
+  have hok := digs_ok (b := 10) (by omega) (by omega) m
+  have hdig : ∀ x ∈ digs 10 m, isDigit x = true := by
+    intro x hx
+    obtain ⟨d, hd, rfl⟩ := hok.mem x hx
+    exact ((byte_facts d (by omega)).2.2.2.2.1 hd).1
+  have hcore := (shape_core sg (digs 10 m) [] [] tail [] [] 45 hsg hok.ne hdig (by simp) (by simp) rfl rfl (.inl rfl) hT).1
+  simp only [List.nil_append, List.length_nil, Nat.add_zero] at hcore
+  obtain ⟨c, ds', hdse⟩ : ∃ c ds', digs 10 m = c :: ds' := by
+    cases h : digs 10 m with
+    | nil => exact absurd h hok.ne
+    | cons c t => exact ⟨c, t, rfl⟩
+  have hlen : 1 ≤ (digs 10 m).length := by rw [hdse]; simp
+  apply parse_decimal _ _ (by omega)
+  · rcases hsg with rfl | rfl
+    · have := hdig c (by simp [hdse])
+      simp [hdse, this]
+    · rfl
+  · exact hcore
+  · have : (sg ++ (digs 10 m ++ tail)).drop (sg.length + (digs 10 m).length) = tail := drop2 _ _ _
+    rw [this]; exact hT
+
+theorem unsigned_roundtrip (w : Nat) (hw : w = 32 ∨ w = 64) (v : Nat) (hv : v < 2^w) (base : Int)
+    (hb : base = 2 ∨ base = 8 ∨ base = 10 ∨ base = 16) (tail : Bytes)
+    (htail : tail = [] ∨ tail.head? = some 44 ∨ tail.head? = some 59 ∨ tail.head? = some 10 ∨ tail.head? = some 13) :
+    let text := intText w v base false
+    let mem := text ++ tail
+    let (p, tok, _) := Parser.parseProgramData mem 0
+    p = text.length ∧
+    tok.type = (if base = 2 then TokType.binnum else if base = 8 then .octnum else if base = 16 then .hexnum else .decimal) ∧
+    Prim.strtoulTo w mem tok.ptr (if base = 2 then 2 else if base = 8 then 8 else if base = 16 then 16 else 10) =
+      (text.length - tok.ptr, v) := by
+  have hT : Term tail := htail
+  dsimp only
+  rw [intText_unsigned]
+  rcases hb with rfl | rfl | rfl | rfl
+  · obtain ⟨h1, h2⟩ := nondec_roundtrip w hw v hv 2 66 isBDigit .binnum (.inr (.inr ⟨rfl, rfl, rfl, rfl⟩)) tail hT
+    have e : effBase 2 = 2 := rfl
+    simp only [e, if_true, List.cons_append, List.nil_append, h1, List.length_cons]
+    exact ⟨by omega, trivial, by rw [h2]; congr 1⟩
+  · obtain ⟨h1, h2⟩ := nondec_roundtrip w hw v hv 8 81 isQDigit .octnum (.inr (.inl ⟨rfl, rfl, rfl, rfl⟩)) tail hT
+    have e : effBase 8 = 8 := rfl
+    have e2 : ¬ ((8 : Int) = 2) := by decide
+    simp only [e, e2, if_true, if_false, List.cons_append, List.nil_append, h1, List.length_cons]
+    exact ⟨by omega, trivial, by rw [h2]; congr 1⟩
+  · have e : effBase 10 = 10 := rfl
+    have e2 : ¬ ((10 : Int) = 2) := by decide
+    have e8 : ¬ ((10 : Int) = 8) := by decide
+    have e16 : ¬ ((10 : Int) = 16) := by decide
+    have hp := dec_parse [] (.inl rfl) v tail hT
+    have hok := digs_ok (b := 10) (by omega) (by omega) v
+    have hs := strtoulTo_run w hw v hv (digs 10 v ++ tail) 0 10 (digs 10 v) tail rfl hok (by omega) hT
+    simp only [List.nil_append, List.length_nil, Nat.zero_add] at hp
+    simp only [e, e2, e8, e16, if_false, List.nil_append, hp]
+    exact ⟨trivial, trivial, by rw [hs]; rfl⟩
+  · obtain ⟨h1, h2⟩ := nondec_roundtrip w hw v hv 16 72 isXDigit .hexnum (.inl ⟨rfl, rfl, rfl, rfl⟩) tail hT
+    have e : effBase 16 = 16 := rfl
+    have e2 : ¬ ((16 : Int) = 2) := by decide
+    have e8 : ¬ ((16 : Int) = 8) := by decide
+    simp only [e, e2, e8, if_true, if_false, List.cons_append, List.nil_append, h1, List.length_cons]
+    exact ⟨by omega, trivial, by rw [h2]; congr 1⟩
+
+theorem intText_signed (w pat : Nat) :
+    intText w pat 10 true = if pat ≥ 2^(w-1) then 45 :: digs 10 (2^w - pat) else digs 10 pat := by
+  have e : effBase 10 = 10 := rfl
+  have e2 : ¬ ((10 : Int) = 2) := by decide
+  have e8 : ¬ ((10 : Int) = 8) := by decide
+  have e16 : ¬ ((10 : Int) = 16) := by decide
+  simp only [intText, canon, e, e2, e8, e16, if_false, List.nil_append, Bool.true_and, decide_true, Bool.and_true,
+    decide_eq_true_eq]
+  split
+  · rfl
+  · rfl
+
+theorem signed_roundtrip (w : Nat) (hw : w = 32 ∨ w = 64) (pat : Nat) (hv : pat < 2^w) (tail : Bytes)
+    (htail : tail = [] ∨ tail.head? = some 44 ∨ tail.head? = some 59 ∨ tail.head? = some 10 ∨ tail.head? = some 13) :
+    let text := intText w pat 10 true
+    let mem := text ++ tail
+    let (p, tok, _) := Parser.parseProgramData mem 0
+    p = text.length ∧ tok.type = .decimal ∧ tok.ptr = 0 ∧
+    Prim.strtolTo w mem 0 10 = (text.length, Prim.wrapSigned w pat) := by
+  have hT : Term tail := htail
+  have h63 : (2:Nat)^(w-1) ≤ 2^63 ∧ 2^w = 2 * 2^(w-1) := by rcases hw with rfl | rfl <;> decide
+  dsimp only
+  rw [intText_signed]
+  by_cases hneg : pat ≥ 2^(w-1)
+  · rw [if_pos hneg]
+    have hok := digs_ok (b := 10) (by omega) (by omega) (2^w - pat)
+    have hp := dec_parse [45] (.inr rfl) (2^w - pat) tail hT
+    have hs := strtolTo_run w (45 :: (digs 10 (2^w - pat) ++ tail)) [45] (digs 10 (2^w - pat)) tail (2^w - pat) rfl (.inr rfl) hok hT
+      (by simp only [if_true]; omega)
+    simp only [List.cons_append, List.nil_append, List.length_cons, List.length_nil, Nat.zero_add] at hp hs
+    simp only [List.cons_append, hp, List.length_cons, hs, if_true]
+    refine ⟨by omega, trivial, trivial, ?_⟩
+    refine Prod.ext (by simp only; omega) ?_
+    simp only [wrapSigned]
+    have : (-((2^w - pat : Nat) : Int)) % (2^w : Int) = (pat : Int) % (2^w : Int) := by
+      rcases hw with rfl | rfl <;> omega
+    rw [this]
+  · rw [if_neg hneg]
+    have hok := digs_ok (b := 10) (by omega) (by omega) pat
+    have hp := dec_parse [] (.inl rfl) pat tail hT
+    have hd' : ¬ (([] : Bytes) = [45]) := by decide
+    have hs := strtolTo_run w (digs 10 pat ++ tail) [] (digs 10 pat) tail pat rfl (.inl rfl) hok hT
+      (by simp only [hd', if_false]; omega)
+    simp only [List.nil_append, List.length_nil, Nat.zero_add, hd', if_false] at hp hs
+    simp only [hp, hs]
+    exact ⟨trivial, trivial, trivial, trivial⟩
+
+end Ints
 
 /-! ### narrow widths, booleans -/
 
